@@ -1,20 +1,63 @@
-PROP = {
-    "suites": ["c11", "c11jar"],
-    "clauses": {1: "an authorization request without request_uri obtained an artifact although pushed requests are required (server or client)",
-                2: "a request without request object obtained an artifact although signed request objects are required (server or client)",
-                3: "a backchannel request without request object obtained an auth_req_id although CIBA request objects are required",
-                4: "an authorization request without code_challenge obtained an artifact although PKCE is required (server, or PKCE enabled and public client)",
-                5: "a request without the openid scope obtained an artifact although the openid scope is required",
-                6: "an authorization request without resource obtained an artifact although resource indicators are required",
-                7: "an access token was obtained without a DPoP proof / dpop_jkt although DPoP is required (server or client)",
-                8: "an access token was obtained without client certificate although certificate-bound tokens are required (server or client)",
-                9: "an access token was obtained without any sender-constraining mechanism although token binding is required",
-                10: "an authorization request outside the selected FAPI profile's response type / response mode / nonce rules obtained an artifact",
-                11: "under a FAPI profile an artifact was obtained through a request object although a required mechanism (PKCE, openid scope, the profile's response type / response mode / nonce rules, dpop_jkt) was not inside the signed object",
-                12: "PKCE is required (server, or enabled and public client) yet a code was redeemed for tokens without a code_verifier that matches the recorded code_challenge under an ENABLED method (downgrade to a disabled method, e.g. a challenge sent without code_challenge_method redeemed with the challenge string itself when only S256 is enabled; or no verification at all)"},
-    "title": "Mechanisms configured as required cannot be bypassed",
-    "text": "Theorems (Props/C11.v, 36, all closed) over Config.build for ALL option lists and over the handler models for all states and requests: required_options_set_flags (every With...Required option sets its required flag and enables the mechanism, whatever else is in the list - by induction over the option list, one monotonicity lemma per field; validate guarantees a mechanism under WithTokenBindingRequired); one ..._enforced theorem per switch and per-client counterpart: PAR (server, client), JAR (server, client, at /authorize and /par), CIBA JAR, PKCE (server, public clients; pkce_no_downgrade_at_token_endpoint: over ALL histories a code whose session recorded a challenge is redeemed only with a verifier matching it under an ENABLED method - the named one or the server default, which pkce_default_is_enabled shows enabled - so a challenge sent without code_challenge_method cannot be redeemed with the challenge string when only S256 is enabled), openid scope (/authorize, /bc-authorize), resource indicators, FAPI 1 (response types, jwt mode for code, nonce) and FAPI 2 (code only), DPoP (server, client), certificate binding (server, client), some-binding at the token endpoint for client_credentials / authorization_code / CIBA, the implicit flow under DPoP/binding required, and the refresh rule (a bound grant is not refreshed without proof/certificate). Correspondence (suite c11): every switch alone under the three profiles and random pairs (thorough: all pairs, 600 triples) x ~150 bypass probes (mechanism omitted ENTIRELY - no scope parameter at all, no code_challenge, no nonce, no proof -, non-required variant, PKCE downgrades: code_challenge with the method left out or named, made for S256 or verbatim, redeemed with the pre-image / the challenge string itself / a wrong verifier / none, with S256 the only enabled method, both methods, plain as default; outer-only parameters after PAR, a mechanism missing from BOTH the pushed and the outer parameters, broken DPoP proof, other client classes) on the REAL provider; the same operations are evaluated by the model and the monitor mon_C11e (Corr/C11.v mon_C11 = the theorems' hypotheses as an executable predicate, plus Corr/C11Eff.v: the same clauses on the EFFECTIVE parameters of a request that redeems a request_uri, and clause 12 at the token endpoint) is evaluated on the real answers. Requests that CARRY a request object (suite c11jar, Model/RequiredJar.v step_gj = Model/Jar.v's init_auth_jar / push_auth_jar in front of the C11 handlers): jar_session_built_from_validated_source (the parameters handed to the session are exactly session_source - the object's alone under FAPI, the object's completed by the outer ones otherwise - and they passed validate_params), fapi_session_from_object (under FAPI the session's code_challenge and nonce are the OBJECT's), object_request_validated / pushed_object_validated (handler level, all states), hence pkce_required_enforced_jar, pkce_required_enforced_par_jar, openid_required_enforced_jar, fapi1_enforced_jar, fapi2_enforced_jar (the mechanism must be INSIDE the signed object under FAPI; a copy outside does not help), mech_missing_reading_sound + fapi_object_carries_required_mechanisms (what the monitor's clause 11 flags cannot happen in the model). Suite c11jar: three profiles x every required mechanism carried by the authorization parameters (PKCE S256/plain, openid scope, nonce, response type, response mode, dpop_jkt for the implicit flow) x {/authorize by value, /authorize by reference, /par then /authorize} x JAR optional/required x six placements (inside only, outside only, both, neither, inside with nothing outside, outside alone), every code redeemed without code_verifier; correspondence including the parameters of the stored session, monitor mon_C11J.",
-    "note": "Request objects: the switches JAR required / CIBA JAR required are proved as 'a request lacking the object is refused' (step_g); requests carrying an object are modelled for /authorize and /par (step_gj, authenticity of the object is C07's subject), not for /bc-authorize. jwt-bearer: the grant is in the handler model (Token.jwt_bearer_grant), so the sender-constraining theorems quantify over it too - a requirement of the server binds the anonymous request as well; a requirement registered for a client binds the requests naming that client (hypothesis `g = GJwtBearer -> cr_id <> 0 \\/ cf_jwt_bearer_authn_required = true` of client_dpop_required_enforced / client_tls_required_enforced: the anonymous client has no registration); WithJWTBearerGrantClientAuthnRequired itself: the flag here, its enforcement in Props/C01.v jwt_bearer_anonymous_only_when_allowed. Resource indicators: resource_required_enforced says that under the switch no authorization request WITHOUT a `resource` parameter is served (requests with resources are modelled since the sys model gained resource indicators; the c11 probes themselves never send one). Requests that redeem a request_uri: the enforced theorems are stated for direct requests; pushed requests are covered by the correspondence probes (PAR then /authorize with outer parameters only, or with the mechanism in neither) and by the monitor on the effective (pushed, or pushed+outer) parameters. Under the OpenID profile POST /par validates the pushed parameters only as optionals, so a request_uri can be obtained without code_challenge / openid; the complete check happens at /authorize on the merged parameters (probed).",
-    "technique": "Coq proof (monotone configuration flags by induction over option lists; guard-by-guard case analysis of the handler programs, quantified over all storage replies) tied to the code by differential correspondence on generated configurations x bypass probes",
-    "design_ref": "DESIGN.md section 6, C11",
-}
+PROP = {'suites': ['c11', 'c11jar'],
+ 'clauses': {1: 'an authorization request without request_uri obtained an artifact although pushed requests are required (server or client)',
+             2: 'a request without request object obtained an artifact although signed request objects are required (server or client)',
+             3: 'a backchannel request without request object obtained an auth_req_id although CIBA request objects are required (by the server, or - where the server has CIBA JAR enabled - by the '
+                "client's registered backchannel_authentication_request_signing_alg)",
+             4: 'an authorization request without code_challenge obtained an artifact although PKCE is required (server, or PKCE enabled and public client)',
+             5: 'a request without the openid scope obtained an artifact although the openid scope is required',
+             6: 'an authorization request without resource obtained an artifact although resource indicators are required',
+             7: 'an access token was obtained without a DPoP proof / dpop_jkt although DPoP is required (server or client)',
+             8: 'an access token was obtained without client certificate although certificate-bound tokens are required (server or client)',
+             9: 'an access token was obtained without any sender-constraining mechanism although token binding is required',
+             10: "an authorization request outside the selected FAPI profile's response type / response mode / nonce rules obtained an artifact",
+             11: "under a FAPI profile an artifact was obtained through a request object although a required mechanism (PKCE, openid scope, the profile's response type / response mode / nonce rules, "
+                 'dpop_jkt) was not inside the signed object',
+             12: 'PKCE is required (server, or enabled and public client) yet a code was redeemed for tokens without a code_verifier that matches the recorded code_challenge under an ENABLED method '
+                 '(downgrade to a disabled method, e.g. a challenge sent without code_challenge_method redeemed with the challenge string itself when only S256 is enabled; or no verification at all)',
+             13: 'pushed authorization requests are required (server or client) yet an authorization request obtained an artifact with a request_uri that the pushed authorization endpoint did not '
+                 "hand to this client: an https request_uri referencing a request object (JAR by reference), a urn nobody pushed, another client's request_uri"},
+ 'title': 'Mechanisms configured as required cannot be bypassed',
+ 'text': 'Theorems (Props/C11.v, 42, all closed) over Config.build for ALL option lists and over the handler models for all states and requests: required_options_set_flags (every With...Required '
+         'option sets its required flag and enables the mechanism, whatever else is in the list - by induction over the option list, one monotonicity lemma per field; validate guarantees a mechanism '
+         'under WithTokenBindingRequired); one ..._enforced theorem per switch and per-client counterpart: PAR (server, client), JAR (server, client, at /authorize and /par), CIBA JAR, PKCE (server, '
+         'public clients; pkce_no_downgrade_at_token_endpoint: over ALL histories a code whose session recorded a challenge is redeemed only with a verifier matching it under an ENABLED method - the '
+         'named one or the server default, which pkce_default_is_enabled shows enabled - so a challenge sent without code_challenge_method cannot be redeemed with the challenge string when only S256 '
+         'is enabled), openid scope (/authorize, /bc-authorize), resource indicators, FAPI 1 (response types, jwt mode for code, nonce) and FAPI 2 (code only), DPoP (server, client), certificate '
+         'binding (server, client), some-binding at the token endpoint for client_credentials / authorization_code / CIBA, the implicit flow under DPoP/binding required, and the refresh rule (a '
+         'bound grant is not refreshed without proof/certificate). Correspondence (suite c11): every switch alone under the three profiles and random pairs (thorough: all pairs, 600 triples) x ~150 '
+         'bypass probes (mechanism omitted ENTIRELY - no scope parameter at all, no code_challenge, no nonce, no proof -, non-required variant, PKCE downgrades: code_challenge with the method left '
+         'out or named, made for S256 or verbatim, redeemed with the pre-image / the challenge string itself / a wrong verifier / none, with S256 the only enabled method, both methods, plain as '
+         'default; outer-only parameters after PAR, a mechanism missing from BOTH the pushed and the outer parameters, broken DPoP proof, other client classes) on the REAL provider; the same '
+         "operations are evaluated by the model and the monitor mon_C11e (Corr/C11.v mon_C11 = the theorems' hypotheses as an executable predicate, plus Corr/C11Eff.v: the same clauses on the "
+         'EFFECTIVE parameters of a request that redeems a request_uri, and clause 12 at the token endpoint) is evaluated on the real answers. PAR REQUIRED IN THE PRESENCE OF REQUEST OBJECTS '
+         "(Proofs/C11JarPar.v, on step_gj = Model/Jar.v's JAR-aware handlers): par_required_enforced_jar (every state, every request - plain, object by value, https request_uri REFERENCING a signed "
+         'object, urn - and every JAR configuration: under PAR required by the server or by every registration of the client an answer that hands out anything implies that request_uri names a STORED '
+         'pushed session of that client that has not expired), par_required_option_enforced_jar (the same from WithPARRequired in the option list), par_required_blocks_unpushed; THE CLIENT-LEVEL '
+         'CIBA JAR SWITCH: client_ciba_jar_required_enforced (CIBA JAR enabled on the server and the client registered a CIBA request signing algorithm: a backchannel request without object obtains '
+         'nothing, every state), ciba_jar_required_enforced_jar (server switch on the same handler), ciba_jar_switch_is_the_ciba_alg (request_object_signing_alg plays no part); Examples in '
+         'Proofs/C11JarParExamples.v. Suite c11jar, block 1: PAR required by the server / by the client x JAR optional / required x JAR by reference on / off x three profiles x {plain request, '
+         "object by value, object by reference over https (served by the harness's round tripper, never pushed) / over http / unfetchable, a genuine pushed request_uri redeemed, its code at /token, "
+         'the same request_uri again, a request_uri pushed by the other client, a urn nobody pushed, a pushed request_uri together with an object, the three direct forms sent by the client not bound '
+         'to PAR}; block 2: CIBA JAR {off, enabled, required} x the backchannel client registered with {no algorithm, only request_object_signing_alg, only '
+         'backchannel_authentication_request_signing_alg, both} x {plain, signed, plain} x three profiles; monitor mon_C11J clauses 1, 13 and 3 (the monitor learns from the history which '
+         "request_uris /par handed to whom). Requests that CARRY a request object (suite c11jar, Model/RequiredJar.v step_gj = Model/Jar.v's init_auth_jar / push_auth_jar in front of the C11 "
+         "handlers): jar_session_built_from_validated_source (the parameters handed to the session are exactly session_source - the object's alone under FAPI, the object's completed by the outer "
+         "ones otherwise - and they passed validate_params), fapi_session_from_object (under FAPI the session's code_challenge and nonce are the OBJECT's), object_request_validated / "
+         'pushed_object_validated (handler level, all states), hence pkce_required_enforced_jar, pkce_required_enforced_par_jar, openid_required_enforced_jar, fapi1_enforced_jar, fapi2_enforced_jar '
+         "(the mechanism must be INSIDE the signed object under FAPI; a copy outside does not help), mech_missing_reading_sound + fapi_object_carries_required_mechanisms (what the monitor's clause "
+         '11 flags cannot happen in the model). Suite c11jar: three profiles x every required mechanism carried by the authorization parameters (PKCE S256/plain, openid scope, nonce, response type, '
+         'response mode, dpop_jkt for the implicit flow) x {/authorize by value, /authorize by reference, /par then /authorize} x JAR optional/required x six placements (inside only, outside only, '
+         'both, neither, inside with nothing outside, outside alone), every code redeemed without code_verifier; correspondence including the parameters of the stored session, monitor mon_C11J.',
+ 'note': "Request objects: the switches JAR required / CIBA JAR required are proved as 'a request lacking the object is refused' (step_g); requests carrying an object are modelled for /authorize, "
+         "/par and /bc-authorize (step_gj; authenticity of the object is C07's subject). The c11 suite's own model (Required.v step_g) knows no per-client CIBA algorithm: that switch is probed in "
+         'c11jar. jwt-bearer client authentication: flag only (the grant has no handler model). Resource indicators: resource_required_enforced says that under the switch no authorization request '
+         'WITHOUT a `resource` parameter is served (requests with resources are modelled since the sys model gained resource indicators; the c11 probes themselves never send one). Requests that '
+         'redeem a request_uri: the enforced theorems are stated for direct requests; pushed requests are covered by the correspondence probes (PAR then /authorize with outer parameters only, or '
+         'with the mechanism in neither) and by the monitor on the effective (pushed, or pushed+outer) parameters. Under the OpenID profile POST /par validates the pushed parameters only as '
+         'optionals, so a request_uri can be obtained without code_challenge / openid; the complete check happens at /authorize on the merged parameters (probed). , so the sender-constraining '
+         'theorems quantify over it too - a requirement of the server binds the anonymous request as well; a requirement registered for a client binds the requests naming that client (hypothesis `g '
+         '= GJwtBearer -> cr_id <> 0 \\/ cf_jwt_bearer_authn_required = true` of client_dpop_required_enforced / client_tls_required_enforced: the anonymous client has no registration); '
+         'WithJWTBearerGrantClientAuthnRequired itself: the flag here, its enforcement in Props/C01.v jwt_bearer_anonymous_only_when_allowed',
+ 'technique': 'Coq proof (monotone configuration flags by induction over option lists; guard-by-guard case analysis of the handler programs, quantified over all storage replies) tied to the code by '
+              'differential correspondence on generated configurations x bypass probes',
+ 'design_ref': 'DESIGN.md section 6, C11'}
